@@ -11,8 +11,10 @@ use std::path::Path;
 /// `big`: the same kind of world plus 1200 inflected words whose dictionary forms are separate entries, and one long
 /// text per thread that uses 400 of them: state whose behaviour changes with the *amount* of distinct data seen
 /// (bounded caches, tables that grow) is exercised by the shuttle engine only with such a scenario.
-pub fn generate(seed: u64, dir: &Path, big: bool) -> Result<(), String> {
-    let mut rng = Rng::derive(seed, if big { "mirigen-big" } else { "mirigen" }, 0);
+/// `many`: nine threads instead of three, every one of them also splits sentences (state keyed by a thread counter,
+/// pools with a fixed number of slots).
+pub fn generate(seed: u64, dir: &Path, big: bool, many: bool) -> Result<(), String> {
+    let mut rng = Rng::derive(seed, if big { "mirigen-big" } else if many { "mirigen-many" } else { "mirigen" }, 0);
     // keep the world small: Miri interprets dictionary loading too
     let opts = WorldGenOpts { max_users: 1, max_rows: 10, full_plugins: true };
     let (mut world, _) = loop {
@@ -95,9 +97,9 @@ pub fn generate(seed: u64, dir: &Path, big: bool) -> Result<(), String> {
     let modes = ["A", "B", "C"];
     let mut threads = vec![];
     let mut order: Vec<usize> = (0..pool.len()).collect();
-    for t in 0..3 {
+    for t in 0..(if many { 9 } else { 3 }) {
         let mut ops = vec![];
-        for k in 0..2 {
+        for k in 0..(if many { 1 } else { 2 }) {
             // every text of every thread reaches every stateful plugin (rewrite rules, prolonged sound marks,
             // yomigana brackets, numerals, katakana / regex / MeCab OOV), in a thread-specific order and with
             // thread-specific dictionary words, so that two threads are inside the same plugin with different data
@@ -122,7 +124,7 @@ pub fn generate(seed: u64, dir: &Path, big: bool) -> Result<(), String> {
         if big {
             ops.push(json!({"op": "analyse", "text": big_texts[t], "mode": "C", "subset": 1023}));
         }
-        if t == 0 {
+        if t == 0 || many {
             ops.push(json!({"op": "sentences", "text": format!("{}。{}！{}", key(&mut rng), key(&mut rng), key(&mut rng))}));
         }
         threads.push(json!({"ops": ops, "expected": []}));
